@@ -26,7 +26,7 @@ func init() {
 	core.Register(&core.Monitor{
 		ID: "C10",
 		Rule: "invalid-biased (schema text, document text) pairs (1-3 injected faults with near-miss names that have several equidistant 'did you mean' candidates, many conflicting field pairs, type-blind documents) and single-fault schema texts; " +
-			"each pair is validated k times from fresh parses (schema reloaded on alternate repeats), the already validated tree is validated again, and the whole case list runs in 4 worker processes, each in a different order (forward, backward, two shuffles), whose per-case digests the driver compares; " +
+			"each pair is validated k times from fresh parses (schema reloaded on alternate repeats), the already validated tree is compared with a fresh parse (validation annotates, it must not rewrite) and validated again, and the whole case list runs in 4 worker processes, each in a different order (forward, backward, two shuffles), whose per-case digests the driver compares; " +
 			"the canonical serialization covers rule, message, every location and the order of the list; LoadSchema errors are compared the same way. A difference on any axis is a violation. " +
 			"distinct = distinct error-list digests seen; non-trivial = cases whose error list is non-empty",
 		Assumptions: []string{
@@ -67,6 +67,9 @@ func c10Case(seed uint64, part, idx int) *core.Case {
 	doc := g.Doc()
 	if idx%7 == 6 {
 		doc = dgen.CollisionDoc(r, mg)
+	}
+	if idx%7 == 5 {
+		doc = dgen.CyclicCollisionDoc(r, mg)
 	}
 	n := 1 + r.Intn(3)
 	for k := 0; k < n; k++ {
@@ -201,7 +204,9 @@ func c10Check(x *core.Ctx, c *core.Case) {
 			}
 		}
 		if c.Get("id") != "" {
-			x.Distinct("digest", c.Get("id")+"#"+digestOf(ssrc)+"="+digestOf(lerr))
+			// the input digest is the same function of the case's texts whatever the outcome was (a pair whose schema fails
+			// to load in one process only must show as a result difference, not as a generator difference)
+			x.Distinct("digest", c.Get("id")+"#"+digestOf(ssrc+"\x00"+c.Get("doc"))+"="+digestOf(lerr))
 			x.Count("cross_process_cases")
 		}
 		return
@@ -236,6 +241,16 @@ func c10Check(x *core.Ctx, c *core.Case) {
 		}
 	}
 	if doc != nil {
+		// validation annotates the tree but must not rewrite it: after validation the document still reads as written
+		// (operations, selections, arguments and directives in source order, values as written)
+		if fresh, perr := parser.ParseQuery(&ast.Source{Name: "doc.graphql", Input: dsrc}); perr == nil {
+			x.Count("documents_compared_with_fresh_parse")
+			if a, b := model.FromAST(doc).Canon(), model.FromAST(fresh).Canon(); a != b {
+				da, db := model.FirstDiff(a, b)
+				x.Violate("document-rewritten-by-validation", da, "as parsed: "+db)
+				return
+			}
+		}
 		x.Count("revalidations")
 		if again := serializeErrs(validator.Validate(schema, doc)); again != first {
 			x.Violate("revalidate:"+errListDiffKind(first, again), again, first)
